@@ -140,7 +140,7 @@ PROPS["C03"] = {
     "technique": "model-based stateful property testing (rapid) with persistent committed readers + concurrent monitor under the race detector + generated catch-up histories of real followers with parked committed readers",
     "level_text": '(a) sequential interleavings with persistent committed readers: append / HW advance (anywhere, exactly on the last message of a segment, exactly on the first) / new reader (any start, beyond the HW, empty log) / read / read-only toggle, each read compared with the model (must deliver exactly the next committed message, or must not deliver anything); (b) real goroutines under the race detector: appender, HW advancer with lag and step, 1-6 readers created mid-run, read-only toggler; every reader checks online that what it gets is committed, consecutive, with the stored content, and reaches the final HW',
     "level_note": 'one appending goroutine per log (as the leader loop / follower handler guarantee); (b) samples schedules, rapid cannot shrink them; negative expectations (must block) are positive-observation checks; operation parkro parks a reader at the HW in a real blocking ReadMessage while the log is switched to read-only: it must stay blocked if uncommitted messages remain and must end otherwise; SetHighWatermark with a lower value must be ignored; the concurrent unit runs two HW movers (as a leader has) and checks that the HW is never observed below a value whose SetHighWatermark call has returned; unit C03c runs on three bare servers sharing a NATS server (the world of C02): the ISR is shrunk to the leader, committed readers are parked on the followers, the leader commits 4-14 messages alone and the followers then catch up in several small fetches (clustering.replication.max.bytes 150-600), each response carrying the leader HW: every message the follower HW covers at the end must have reached its parked reader once and in order',
-    "rule": '(a) rapid draws 2-60 steps over segment sizes {1,64,150,300,1024}; non-trivial = a reader that blocked with the HW resting on the last message of a segment and later crossed into the next segment. (b) rapid draws batch sizes, lag, step, reader creation points and start fractions, toggles, yield pattern; non-trivial = >=2 readers parked in waitForHW at once and >=1 roll.',
+    "rule": '(a) rapid draws 2-60 steps over segment sizes {1,64,150,300,1024}; non-trivial = a reader that blocked with the HW resting on the last message of a segment and later crossed into the next segment. (b) rapid draws batch sizes, lag, step, reader creation points and start fractions, toggles, yield pattern, and in a third of the cases a goroutine that runs the cleaner loop's roll check (segment.max.age 20-500 us, wall-clock message timestamps) next to the appender; non-trivial = >=2 readers parked in waitForHW at once and >=1 roll.',
     "assumptions": TRUST,
     "units": [
         {"name": "C03a", "pkg": "server/commitlog", "test": "TestVerifC03a",
@@ -205,7 +205,7 @@ PROPS["C13"] = {
     "level": "exploration",
     "technique": "model-based stateful property testing (rapid) of group subscribes/cancels/ends + concurrent interval monitor under the race detector",
     "level_text": "sequences of group subscribes (2 groups, 3 consumer ids, epochs 0-4, on-cancel or finite), client cancellations (context first or Close first), natural ends and publishes on one partition of a bare server through the real partition.Subscribe; model: the last accepted subscriber holds the partition; an older epoch must be refused without disturbing the holder, an equal/newer one must succeed and cancel the holder; at every quiescent point at most one active subscription per group and the partition's registration names it",
-    "level_note": 'the harness does what api.Subscribe does around partition.Subscribe (cancel the stream context and Close the subscription when it returns); loop clean-up is asynchronous, so registry checks are retried and only a state persisting for 22 s is a violation',
+    "level_note": 'the harness does what api.Subscribe does around partition.Subscribe (cancel the stream context and Close the subscription when it returns); loop clean-up is asynchronous, so registry checks are retried and only a state persisting for 22 s is a violation; in a third of the replacements the harness delays that cancellation: the replaced subscription's caller keeps its context and keeps receiving while 24 more messages are committed - a cancelled loop may hand over a message it already holds (a coin toss per message), but not 24 in a row',
     "rule": 'rapid draws 2-20 steps. Non-trivial = a replacement by the same consumer id, a refused stale-epoch subscriber while a holder exists, or a natural end followed by a new subscriber.',
     "assumptions": TRUST,
     "units": [
@@ -255,7 +255,7 @@ PROPS["C11"] = {
                    "a final sweep fetches every key through the log and through the cache. Unit C11b: three bare servers sharing one NATS server with a 3-replica cursors partition (the harness plays the Raft log, replication is real); "
                    "SetCursor/FetchCursor/clean on the current leader interleaved with changes of the cursors-partition leader among the three (also back to an earlier leader, whose cache must have been purged); "
                    "a fetch on the new leader must return the last acknowledged SetCursor"),
-    "level_note": "C11 unit: single node; C11b unit: leader changes are applied by the new leader first (the opposite order is the territory of the open finding C02-hw-truncation-fallback); an error return is not a violation (counted, >20% makes the case inconclusive); a failed SetCursor makes both the old and the new value acceptable",
+    "level_note": "C11 unit: single node, with operation race (2-4 concurrent SetCursor calls for one cursor, in half of the cases with the cursor evicted from the cache and two concurrent FetchCursor calls: afterwards the cache and the log must agree); C11b unit: operation fetchold sends a fetch to a server that does not lead the cursors partition (refused, or current); leader changes are applied by the new leader first (the opposite order is the territory of the open finding C02-hw-truncation-fallback); an error return is not a violation (counted, >20% makes the case inconclusive); a failed SetCursor makes both the old and the new value acceptable",
     "rule": "rapid draws key count and 4-40 operations (set, burst of sets, fetch, clean, purge, cache toggle, pause, restart, race = 2-4 concurrent SetCursor calls for one cursor followed by a fetch through the cache and one through the log, which must agree). Non-trivial = at least one forced clean after cursors were stored (so later fetches read compacted, non-newest segments). C11b: 5-40 operations over 4 keys; non-trivial = a fetch answered correctly after at least one leader change.",
     "assumptions": TRUST,
     "units": [
@@ -273,7 +273,7 @@ PROPS["C07"] = {
                    "controller leadership losses and, in a 40 ms regime, waits past the expiry timer, against the real metadataAPI of a started single-node controller (real Raft, real FSM); "
                    "model: a leader change happens at a report iff more than half of the in-sync followers have reported the current (leader, epoch) since the last change/expiry/reset; "
                    "after every request: stale pairs are refused without effect, the new leader comes from the ISR and is not the old one, leader in ISR subset of replicas, epochs only grow, one leader per leader epoch. Unit C07exh runs EVERY sequence of up to 4 (thorough: 5) requests over a 12-letter alphabet on a 3-replica partition (report by replica 0-2 with the current or a stale epoch, report naming a wrong leader, shrink/expand of either follower, controller leadership loss) through the same executor and oracle"),
-    "level_note": "replicas are foreign ids (this server is the controller only); the 40 ms regime discards (inconclusive) cases in which an 'immediate' step took >20 ms instead of guessing which side of the timer it fell on",
+    "level_note": "replicas are foreign ids (this server is the controller only); the 40 ms regime discards (inconclusive) cases in which an 'immediate' step took >20 ms instead of guessing which side of the timer it fell on; operation bounce pauses and resumes the stream through the controller, which rebuilds the partition object from the stored record (as a snapshot restore does): leader, epoch and in-sync set must be what they were, the reports collected so far are forgotten",
     "rule": "rapid draws 3 or 5 replicas, the timer regime and 3-30 requests. Non-trivial = a completed failover followed by further reports, an ISR change between two reports of one round, a report from a replica outside the ISR, or a timer expiry between reports. C07exh: 22,620 sequences (quick) / 271,452 (thorough), complete for its alphabet and length bound.",
     "assumptions": TRUST,
     "units": [
